@@ -5,113 +5,125 @@ import (
 	"unsafe"
 )
 
-func apt() {
-	if t := me(); t != nil && !t.killed && t.quiet == 0 {
-		s.point(t, &pend{kind: opYield, what: "atomic"})
+func apt(key uintptr, write bool) {
+	if t := me(); t != nil && !t.killed {
+		if t.quiet == 0 {
+			s.point(t, &pend{kind: opYield, what: "atomic"})
+		}
+		s.acc(t, key, write)
 	}
 }
 
-func AddInt32(p *int32, d int32) int32                 { apt(); return atomic.AddInt32(p, d) }
-func AddInt64(p *int64, d int64) int64                 { apt(); return atomic.AddInt64(p, d) }
-func AddUint32(p *uint32, d uint32) uint32             { apt(); return atomic.AddUint32(p, d) }
-func AddUint64(p *uint64, d uint64) uint64             { apt(); return atomic.AddUint64(p, d) }
-func AddUintptr(p *uintptr, d uintptr) uintptr         { apt(); return atomic.AddUintptr(p, d) }
-func LoadInt32(p *int32) int32                         { apt(); return atomic.LoadInt32(p) }
-func LoadInt64(p *int64) int64                         { apt(); return atomic.LoadInt64(p) }
-func LoadUint32(p *uint32) uint32                      { apt(); return atomic.LoadUint32(p) }
-func LoadUint64(p *uint64) uint64                      { apt(); return atomic.LoadUint64(p) }
-func LoadUintptr(p *uintptr) uintptr                   { apt(); return atomic.LoadUintptr(p) }
-func LoadPointer(p *unsafe.Pointer) unsafe.Pointer     { apt(); return atomic.LoadPointer(p) }
-func StoreInt32(p *int32, v int32)                     { apt(); atomic.StoreInt32(p, v) }
-func StoreInt64(p *int64, v int64)                     { apt(); atomic.StoreInt64(p, v) }
-func StoreUint32(p *uint32, v uint32)                  { apt(); atomic.StoreUint32(p, v) }
-func StoreUint64(p *uint64, v uint64)                  { apt(); atomic.StoreUint64(p, v) }
-func StoreUintptr(p *uintptr, v uintptr)               { apt(); atomic.StoreUintptr(p, v) }
-func StorePointer(p *unsafe.Pointer, v unsafe.Pointer) { apt(); atomic.StorePointer(p, v) }
-func SwapInt32(p *int32, v int32) int32                { apt(); return atomic.SwapInt32(p, v) }
-func SwapInt64(p *int64, v int64) int64                { apt(); return atomic.SwapInt64(p, v) }
-func SwapUint32(p *uint32, v uint32) uint32            { apt(); return atomic.SwapUint32(p, v) }
-func SwapUint64(p *uint64, v uint64) uint64            { apt(); return atomic.SwapUint64(p, v) }
-func SwapUintptr(p *uintptr, v uintptr) uintptr        { apt(); return atomic.SwapUintptr(p, v) }
-func SwapPointer(p *unsafe.Pointer, v unsafe.Pointer) unsafe.Pointer {
-	apt()
-	return atomic.SwapPointer(p, v)
-}
+func AddInt32(p *int32, d int32) int32  { apt(addr(p), true); return atomic.AddInt32(p, d) }
+func LoadInt32(p *int32) int32          { apt(addr(p), false); return atomic.LoadInt32(p) }
+func StoreInt32(p *int32, v int32)      { apt(addr(p), true); atomic.StoreInt32(p, v) }
+func SwapInt32(p *int32, v int32) int32 { apt(addr(p), true); return atomic.SwapInt32(p, v) }
 func CompareAndSwapInt32(p *int32, o, n int32) bool {
-	apt()
+	apt(addr(p), true)
 	return atomic.CompareAndSwapInt32(p, o, n)
 }
+func AddInt64(p *int64, d int64) int64  { apt(addr(p), true); return atomic.AddInt64(p, d) }
+func LoadInt64(p *int64) int64          { apt(addr(p), false); return atomic.LoadInt64(p) }
+func StoreInt64(p *int64, v int64)      { apt(addr(p), true); atomic.StoreInt64(p, v) }
+func SwapInt64(p *int64, v int64) int64 { apt(addr(p), true); return atomic.SwapInt64(p, v) }
 func CompareAndSwapInt64(p *int64, o, n int64) bool {
-	apt()
+	apt(addr(p), true)
 	return atomic.CompareAndSwapInt64(p, o, n)
 }
+func AddUint32(p *uint32, d uint32) uint32  { apt(addr(p), true); return atomic.AddUint32(p, d) }
+func LoadUint32(p *uint32) uint32           { apt(addr(p), false); return atomic.LoadUint32(p) }
+func StoreUint32(p *uint32, v uint32)       { apt(addr(p), true); atomic.StoreUint32(p, v) }
+func SwapUint32(p *uint32, v uint32) uint32 { apt(addr(p), true); return atomic.SwapUint32(p, v) }
 func CompareAndSwapUint32(p *uint32, o, n uint32) bool {
-	apt()
+	apt(addr(p), true)
 	return atomic.CompareAndSwapUint32(p, o, n)
 }
+func AddUint64(p *uint64, d uint64) uint64  { apt(addr(p), true); return atomic.AddUint64(p, d) }
+func LoadUint64(p *uint64) uint64           { apt(addr(p), false); return atomic.LoadUint64(p) }
+func StoreUint64(p *uint64, v uint64)       { apt(addr(p), true); atomic.StoreUint64(p, v) }
+func SwapUint64(p *uint64, v uint64) uint64 { apt(addr(p), true); return atomic.SwapUint64(p, v) }
 func CompareAndSwapUint64(p *uint64, o, n uint64) bool {
-	apt()
+	apt(addr(p), true)
 	return atomic.CompareAndSwapUint64(p, o, n)
 }
+func AddUintptr(p *uintptr, d uintptr) uintptr  { apt(addr(p), true); return atomic.AddUintptr(p, d) }
+func LoadUintptr(p *uintptr) uintptr            { apt(addr(p), false); return atomic.LoadUintptr(p) }
+func StoreUintptr(p *uintptr, v uintptr)        { apt(addr(p), true); atomic.StoreUintptr(p, v) }
+func SwapUintptr(p *uintptr, v uintptr) uintptr { apt(addr(p), true); return atomic.SwapUintptr(p, v) }
 func CompareAndSwapUintptr(p *uintptr, o, n uintptr) bool {
-	apt()
+	apt(addr(p), true)
 	return atomic.CompareAndSwapUintptr(p, o, n)
 }
+func LoadPointer(p *unsafe.Pointer) unsafe.Pointer     { apt(addr(p), false); return atomic.LoadPointer(p) }
+func StorePointer(p *unsafe.Pointer, v unsafe.Pointer) { apt(addr(p), true); atomic.StorePointer(p, v) }
+func SwapPointer(p *unsafe.Pointer, v unsafe.Pointer) unsafe.Pointer {
+	apt(addr(p), true)
+	return atomic.SwapPointer(p, v)
+}
 func CompareAndSwapPointer(p *unsafe.Pointer, o, n unsafe.Pointer) bool {
-	apt()
+	apt(addr(p), true)
 	return atomic.CompareAndSwapPointer(p, o, n)
 }
 
 // Value mirrors atomic.Value.
 type Value struct{ v atomic.Value }
 
-func (v *Value) Load() any                    { apt(); return v.v.Load() }
-func (v *Value) Store(x any)                  { apt(); v.v.Store(x) }
-func (v *Value) Swap(x any) any               { apt(); return v.v.Swap(x) }
-func (v *Value) CompareAndSwap(o, n any) bool { apt(); return v.v.CompareAndSwap(o, n) }
+func (v *Value) Load() any                    { apt(addr(v), false); return v.v.Load() }
+func (v *Value) Store(x any)                  { apt(addr(v), true); v.v.Store(x) }
+func (v *Value) Swap(x any) any               { apt(addr(v), true); return v.v.Swap(x) }
+func (v *Value) CompareAndSwap(o, n any) bool { apt(addr(v), true); return v.v.CompareAndSwap(o, n) }
 
 type Bool struct{ v atomic.Bool }
 
-func (b *Bool) Load() bool                    { apt(); return b.v.Load() }
-func (b *Bool) Store(x bool)                  { apt(); b.v.Store(x) }
-func (b *Bool) Swap(x bool) bool              { apt(); return b.v.Swap(x) }
-func (b *Bool) CompareAndSwap(o, n bool) bool { apt(); return b.v.CompareAndSwap(o, n) }
-
-type Int32 struct{ v atomic.Int32 }
-
-func (b *Int32) Load() int32                    { apt(); return b.v.Load() }
-func (b *Int32) Store(x int32)                  { apt(); b.v.Store(x) }
-func (b *Int32) Swap(x int32) int32             { apt(); return b.v.Swap(x) }
-func (b *Int32) Add(x int32) int32              { apt(); return b.v.Add(x) }
-func (b *Int32) CompareAndSwap(o, n int32) bool { apt(); return b.v.CompareAndSwap(o, n) }
-
-type Int64 struct{ v atomic.Int64 }
-
-func (b *Int64) Load() int64                    { apt(); return b.v.Load() }
-func (b *Int64) Store(x int64)                  { apt(); b.v.Store(x) }
-func (b *Int64) Swap(x int64) int64             { apt(); return b.v.Swap(x) }
-func (b *Int64) Add(x int64) int64              { apt(); return b.v.Add(x) }
-func (b *Int64) CompareAndSwap(o, n int64) bool { apt(); return b.v.CompareAndSwap(o, n) }
-
-type Uint32 struct{ v atomic.Uint32 }
-
-func (b *Uint32) Load() uint32                    { apt(); return b.v.Load() }
-func (b *Uint32) Store(x uint32)                  { apt(); b.v.Store(x) }
-func (b *Uint32) Swap(x uint32) uint32            { apt(); return b.v.Swap(x) }
-func (b *Uint32) Add(x uint32) uint32             { apt(); return b.v.Add(x) }
-func (b *Uint32) CompareAndSwap(o, n uint32) bool { apt(); return b.v.CompareAndSwap(o, n) }
-
-type Uint64 struct{ v atomic.Uint64 }
-
-func (b *Uint64) Load() uint64                    { apt(); return b.v.Load() }
-func (b *Uint64) Store(x uint64)                  { apt(); b.v.Store(x) }
-func (b *Uint64) Swap(x uint64) uint64            { apt(); return b.v.Swap(x) }
-func (b *Uint64) Add(x uint64) uint64             { apt(); return b.v.Add(x) }
-func (b *Uint64) CompareAndSwap(o, n uint64) bool { apt(); return b.v.CompareAndSwap(o, n) }
+func (b *Bool) Load() bool                    { apt(addr(b), false); return b.v.Load() }
+func (b *Bool) Store(x bool)                  { apt(addr(b), true); b.v.Store(x) }
+func (b *Bool) Swap(x bool) bool              { apt(addr(b), true); return b.v.Swap(x) }
+func (b *Bool) CompareAndSwap(o, n bool) bool { apt(addr(b), true); return b.v.CompareAndSwap(o, n) }
 
 type Pointer[T any] struct{ v atomic.Pointer[T] }
 
-func (b *Pointer[T]) Load() *T                    { apt(); return b.v.Load() }
-func (b *Pointer[T]) Store(x *T)                  { apt(); b.v.Store(x) }
-func (b *Pointer[T]) Swap(x *T) *T                { apt(); return b.v.Swap(x) }
-func (b *Pointer[T]) CompareAndSwap(o, n *T) bool { apt(); return b.v.CompareAndSwap(o, n) }
+func (b *Pointer[T]) Load() *T     { apt(addr(b), false); return b.v.Load() }
+func (b *Pointer[T]) Store(x *T)   { apt(addr(b), true); b.v.Store(x) }
+func (b *Pointer[T]) Swap(x *T) *T { apt(addr(b), true); return b.v.Swap(x) }
+func (b *Pointer[T]) CompareAndSwap(o, n *T) bool {
+	apt(addr(b), true)
+	return b.v.CompareAndSwap(o, n)
+}
+
+type Int32 struct{ v atomic.Int32 }
+
+func (b *Int32) Load() int32                    { apt(addr(b), false); return b.v.Load() }
+func (b *Int32) Store(x int32)                  { apt(addr(b), true); b.v.Store(x) }
+func (b *Int32) Swap(x int32) int32             { apt(addr(b), true); return b.v.Swap(x) }
+func (b *Int32) Add(x int32) int32              { apt(addr(b), true); return b.v.Add(x) }
+func (b *Int32) CompareAndSwap(o, n int32) bool { apt(addr(b), true); return b.v.CompareAndSwap(o, n) }
+
+type Int64 struct{ v atomic.Int64 }
+
+func (b *Int64) Load() int64                    { apt(addr(b), false); return b.v.Load() }
+func (b *Int64) Store(x int64)                  { apt(addr(b), true); b.v.Store(x) }
+func (b *Int64) Swap(x int64) int64             { apt(addr(b), true); return b.v.Swap(x) }
+func (b *Int64) Add(x int64) int64              { apt(addr(b), true); return b.v.Add(x) }
+func (b *Int64) CompareAndSwap(o, n int64) bool { apt(addr(b), true); return b.v.CompareAndSwap(o, n) }
+
+type Uint32 struct{ v atomic.Uint32 }
+
+func (b *Uint32) Load() uint32         { apt(addr(b), false); return b.v.Load() }
+func (b *Uint32) Store(x uint32)       { apt(addr(b), true); b.v.Store(x) }
+func (b *Uint32) Swap(x uint32) uint32 { apt(addr(b), true); return b.v.Swap(x) }
+func (b *Uint32) Add(x uint32) uint32  { apt(addr(b), true); return b.v.Add(x) }
+func (b *Uint32) CompareAndSwap(o, n uint32) bool {
+	apt(addr(b), true)
+	return b.v.CompareAndSwap(o, n)
+}
+
+type Uint64 struct{ v atomic.Uint64 }
+
+func (b *Uint64) Load() uint64         { apt(addr(b), false); return b.v.Load() }
+func (b *Uint64) Store(x uint64)       { apt(addr(b), true); b.v.Store(x) }
+func (b *Uint64) Swap(x uint64) uint64 { apt(addr(b), true); return b.v.Swap(x) }
+func (b *Uint64) Add(x uint64) uint64  { apt(addr(b), true); return b.v.Add(x) }
+func (b *Uint64) CompareAndSwap(o, n uint64) bool {
+	apt(addr(b), true)
+	return b.v.CompareAndSwap(o, n)
+}
